@@ -249,11 +249,12 @@ func (r *run) checkNotDrained(wk string, after *scheduler.VerifState) {
 	if wb == nil || wa == nil || wa.CurrentTaskOperation == "" || wb.CurrentTaskOperation == wa.CurrentTaskOperation {
 		return
 	}
-	if wb.Cleanup != nil && !wb.Cleanup.After(after.Now) {
-		return // the worker object of the previous segment was removed as stale on entry; this is a freshly registered worker
-	}
+	// The terminating mark belongs to a worker *registration*: when the worker of the previous segment
+	// had not synchronised for so long that it was removed as stale on entry, this Synchronize registered
+	// a fresh worker under the same id, which starts unmarked.  Drains are per queue and survive that.
+	reRegistered := wb.Cleanup != nil && !wb.Cleanup.After(after.Now)
 	why := ""
-	if wb.Terminating {
+	if wb.Terminating && !reRegistered {
 		why = "was marked as terminating"
 	}
 	for _, db := range qb.Drains {
